@@ -70,6 +70,9 @@ struct Rec {
 	armed: Vec<(usize, Box<dyn FnOnce() + Send>)>,
 	injected: Vec<(String, bool)>,
 	handlers: Vec<SharedHandler>,
+	/// errors the watcher reports through its callback from *inside* the next watch() calls, on the caller's own task
+	/// (what notify's poll watcher does for an unreadable root)
+	sync_cb_errors: usize,
 }
 
 struct Inst {
@@ -126,8 +129,25 @@ impl FakeWatcher {
 		if let Some(cb) = cb {
 			cb();
 		}
+		if !unwatch {
+			let k = {
+				let mut r = self.rec.lock().unwrap();
+				if r.sync_cb_errors > 0 {
+					r.sync_cb_errors -= 1;
+					Some(r.sync_cb_errors)
+				} else {
+					None
+				}
+			};
+			if let Some(k) = k {
+				let mut h = self._handler.lock().unwrap();
+				(*h)(Err(notify::Error::generic(&format!("verif-callback-error-sync{k}-"))));
+			}
+		}
 		if failed {
-			Err(notify::Error::generic("verif: injected watcher failure"))
+			// notify errors come with or without the path they are about; either way one runtime error naming the path
+			let e = notify::Error::generic("verif: injected watcher failure");
+			Err(if name.len() % 2 == 0 || unwatch { e.add_path(path.to_path_buf()) } else { e })
 		} else {
 			Ok(())
 		}
@@ -876,6 +896,9 @@ pub fn callback_faults(args: &ShardArgs, rng: &mut Rng, rep: &mut Report) {
 	}
 	let nerr = 1 + rng.usize(5);
 	let nflood = 20 + rng.usize(60);
+	let nsync = if rng.chance(1, 2) { 1 + rng.usize(2) } else { 0 };
+	rec.lock().unwrap().sync_cb_errors = nsync;
+	rep.count("callback_errors_reported_from_inside_watch", nsync as u64);
 	let err_chan = *rng.pick(&[1usize, 2, 64]);
 	let errors: Arc<Mutex<Vec<String>>> = Arc::new(Mutex::new(vec![]));
 	let delivered: Arc<Mutex<Vec<String>>> = Arc::new(Mutex::new(vec![]));
@@ -966,6 +989,12 @@ pub fn callback_faults(args: &ShardArgs, rng: &mut Rng, rep: &mut Report) {
 		let n = errs.iter().filter(|e| e.contains(&format!("verif-callback-error-{i}-"))).count();
 		if n > 1 {
 			rep.violation("C15/callback-error/reported-twice", &format!("unreadable event #{i} from the watcher callback reached the error handler {n} times"), wit());
+		}
+	}
+	for k in 0..nsync {
+		let n = errs.iter().filter(|e| e.contains(&format!("verif-callback-error-sync{k}-"))).count();
+		if n > 1 {
+			rep.violation("C15/callback-error/reported-twice", &format!("error #{k} reported by the watcher from inside watch() reached the error handler {n} times"), wit());
 		}
 	}
 	let overflow = errs.iter().filter(|e| e.contains("EventChannelTrySend")).count();
